@@ -225,6 +225,13 @@ func runSensitivity(r *Report) {
 		rv := exec.Command("patch", "-R", "-p1", "--no-backup-if-mismatch", "-s", "-i", patch)
 		rv.Dir = scratch
 		rv.Run()
+		if strings.Contains(string(out), "does not load/type-check") {
+			// a later fix in /repo changed the context (an import the patch removes is used again):
+			// the change as written no longer compiles on this tree
+			na++
+			results = append(results, mutantResult{"seeded/" + meta.ID, "does-not-build", "the patched tree no longer type-checks on the current /repo"})
+			continue
+		}
 		applied++
 		if strings.Contains(string(out), "VIOLATION property="+r.Property) {
 			detected++
